@@ -345,7 +345,8 @@ class Server(object):
         assert auth is not None
 
         try:
-            result = auth.server_attempt(arg)
+            with Timeout(self.command_timeout):
+                result = auth.server_attempt(arg)
         except ValueError:
             bad_arguments.send(self.io)
             return
